@@ -248,6 +248,72 @@ def fn_prob(items):
     return {'n': n, 'nt': nt, 'viol': viol, 'extra': extra}
 
 
+def _queries(st, N):
+    """Observable answers of a state object (each one a plain comparable value)."""
+    G = ref.all_g(N)
+    Gs = np.concatenate([G, G])
+    Ps = np.concatenate([np.zeros(len(G), dtype=np.int64), np.full(len(G), 2)])
+    out = {}
+    out['expect(list)'] = np.asarray(st.expect(lib.PL(Gs, Ps))).tolist()
+    out['expect(iY..)'] = complex(st.expect(lib.P(G[-1], 1)))
+    out['entropy([0])'] = float(st.entropy([0]))
+    out['entropy(mask)'] = float(st.entropy(np.array([False] * (N - 1) + [True])))
+    m = st.to_map()
+    out['to_map'] = (np.asarray(m.gs).tolist(), (np.asarray(m.ps) % 4).tolist())
+    dm = st.density_matrix
+    out['density_matrix'] = sorted((tuple(g), int(p) % 4, complex(c)) for g, p, c in zip(np.asarray(dm.gs).tolist(), np.asarray(dm.ps).tolist(), np.asarray(dm.cs).tolist()))
+    out['to_qutip'] = np.round(np.asarray(st.to_qutip().full()), 9).tolist()
+    out['repr'] = repr(st)
+    out['tokenize'] = np.asarray(st.tokenize()).tolist()
+    if int(st.r) == 0:
+        out['get_prob'] = [float(st.get_prob(np.array(b, dtype=lib.INT))) for b in itertools.product((0, 1), repeat=N)]
+        out['overlap(zero)'] = float(st.expect(lib.pc.zero_state(N)))
+    return out
+
+
+def fn_live(items):
+    """item = [N, idx, lo, hi]: query -> in-place operation -> query again on ONE live state object.
+    The answers after the operation must equal those of a FRESH object built from the live object's
+    arrays (differential oracle: no stale cache, no hidden state), and the first round of queries must
+    not have changed the object.  Operations = menu entries lo..hi-1 of the C05 menu."""
+    from . import c05
+    n = nt = 0
+    viol = []
+    for N, idx, lo, hi in items:
+        gs0, ps0, r0 = stab.tableaux(N)[idx]
+        menu = c05.get_menu(N, 'quick')
+        for k in range(lo, min(hi, len(menu))):
+            cls, label, f = menu[k]
+            st = lib.ST(gs0, ps0, r0)
+            try:
+                q0 = _queries(st, N)
+            except Exception as e:
+                viol.append(V('C07/live/query-raises-%s' % type(e).__name__, [N, idx, k, k + 1], 'queries on %s raised %s: %s' % (stab.describe(gs0, ps0, r0), type(e).__name__, e)))
+                break
+            if not same_state(st, (gs0, ps0, r0)):
+                viol.append(V('C07/live/queries-changed-state', [N, idx, k, k + 1], 'the query round changed the state %s' % stab.describe(gs0, ps0, r0)))
+                break
+            try:
+                if f(st) == 'skip':
+                    continue
+            except Exception:
+                continue            # failing operations are judged by C05
+            if stab.state_check(st, N):
+                continue            # invalid successors are judged by C05
+            fresh = lib.ST(np.array(st.gs), np.array(st.ps), int(st.r))
+            q1 = _queries(st, N)
+            q2 = _queries(fresh, N)
+            n += len(q1)
+            nt += 1
+            for key in q2:
+                a, b = q1.get(key), q2[key]
+                same = (a == b) if not isinstance(b, (float, complex)) else abs(a - b) < 1e-9
+                if not same:
+                    viol.append(V('C07/live/%s/stale-after-%s' % (key, cls), [N, idx, k, k + 1], '%s after %s on a live object that had been queried before differs from the same query on a fresh object with identical arrays (%s)' % (
+                        key, label, stab.describe(st.gs, st.ps, int(st.r))), a, b))
+    return {'n': n, 'nt': nt, 'viol': viol}
+
+
 def fn_n3(items):
     """item = [li, L]: N=3 states built from the li-th ordered commuting list of length L with a
     sign pattern; expectation of the complete signed list and of imaginary-phase Paulis."""
@@ -300,6 +366,13 @@ def legs(tier):
                        'all' if tier != 'quick' else 'every 2nd', 'all 34560' if tier != 'quick' else 'every 3rd of 34560')))
     out.append(Leg('get_prob', fn_prob, [[1, i, 'py'] for i in range(48)] + [[2, i, 'py'] for i in range(34560)], chunk=200, src_states=34608,
                    bound='all tableaux N<=2 x all 2^N bit strings'))
+    from . import c05
+    msz = len(c05.get_menu(2, 'quick'))
+    lreps = stab.representatives(2, 0)
+    litems = [[1, i, 0, 10 ** 6] for i in range(0, 48, 3)] + [[2, i, lo, lo + 80] for i in (lreps if tier != 'quick' else lreps[::3]) for lo in range(0, msz, 80)]
+    out.append(Leg('live_histories', fn_live, litems, chunk=2,
+                   bound='query round -> one in-place operation (each of the %d C05 menu operations, every coin branch) -> query round on the same live object vs a fresh object built from its arrays; N=1 every 3rd tableau, N=2 %s' % (
+                       msz, 'one tableau per density matrix' if tier != 'quick' else 'every 3rd density matrix')))
     if tier != 'quick':
         n3 = [[li, L] for L in (1, 2, 3) for li in range(0, len(dom.commuting_lists(3, L)), {1: 1, 2: 9, 3: 97}[L])]
         out.append(Leg('expect_N3', fn_n3, n3, chunk=8, exhaustive=False, supplementary=True, bound='N=3 states from commuting lists (all L=1, every 9th L=2, every 97th L=3)'))
